@@ -196,9 +196,44 @@ def fix_sizes(rng, chains, slack=(0, 0, 1, 4, 9)):
             s.size = size[s.name]
 
 
-def gen_file(rng, max_chains=5, **kw):
+ODD_CONTIGS = ["", "x:y", "\u00e9\u4e2d", "Chr1", "chr1.1", "a\tb", "-", "+"]
+
+
+def gen_file(rng, max_chains=5, odd_names=False, **kw):
     n = rng.choice([1, 1, 2, 2, 3, 4, max_chains])
     chains = [gen_chain(rng, i + 1, **kw) for i in range(n)]
+    if odd_names and rng.random() < 0.12:
+        # contig names the format allows but tools rarely see: empty, with ':' or TAB, non-ASCII, case variants
+        ren = {}
+        for c in chains:
+            for side in (c.ref, c.qry):
+                if rng.random() < 0.5:
+                    ren.setdefault(side.name, rng.choice(ODD_CONTIGS))
+        for c in chains:
+            for side in (c.ref, c.qry):
+                side.name = ren.get(side.name, side.name)
+    if rng.random() < 0.05:
+        for c in chains:
+            c.score = rng.choice([0, U64, 2 ** 32])
+            c.cid = rng.choice([0, U64])
+    fix_sizes(rng, chains)
+    return chains
+
+
+def gen_many(rng):
+    """many short chains on one reference contig, with coinciding starts and nested spans (a larger interval tree)"""
+    n = rng.randint(25, 70)
+    chains = []
+    for i in range(n):
+        blocks = [(rng.randint(1, 6), rng.choice([0, 1, 3]), rng.choice([0, 2]))] * rng.choice([1, 1, 2])
+        if rng.random() < 0.1:
+            blocks = [(rng.randint(40, 90), 0, 0)]
+        c = Chain(i, None, None, i + 1, list(blocks))
+        rstart = rng.choice([0, 5, 5, 10, 10, 17, rng.randint(0, 60)])
+        qstart = rng.randint(0, 20)
+        c.ref = Side("chr1", 0, rng.choice("++-"), rstart, rstart + c.ref_extent())
+        c.qry = Side(rng.choice(["q1", "q2"]), 0, rng.choice("+-"), qstart, qstart + c.qry_extent())
+        chains.append(c)
     fix_sizes(rng, chains)
     return chains
 
